@@ -1,6 +1,7 @@
 package checks
 
 import (
+	"net"
 	"fmt"
 	"os"
 	"testing"
@@ -41,3 +42,5 @@ func storeID(s string) store.NodeID { return store.NodeID(s) }
 func badgerMemOpts() badgerdb.Options {
 	return badgerdb.DefaultOptions("").WithInMemory(true).WithLogger(nil)
 }
+
+func netListen() (net.Listener, error) { return net.Listen("tcp", "127.0.0.1:0") }
